@@ -12,9 +12,10 @@ CONSTANTS
   Record = FALSE
   Defect_NoArmOnSync = FALSE
   Defect_TakeoverKeepsOrigin = FALSE
+  Defect_EchoRemovesFlipped = FALSE
   Defect_ClientSetBeforeOwner = FALSE
 VIEW StateView
 CONSTRAINT NoRange
 INVARIANTS CountsMatch HealthyCountsMatch PerpetualMatches IndexedOnce ClientSetSound ClientSetComplete ArmedHealthy ArmedUnhealthy
-PROPERTIES NeverExpireWhileBeating NeverExpireGrpcOrPersistent ExpiredAfterSweep
+PROPERTIES NeverExpireWhileBeating NeverExpireGrpcOrPersistent ExpiredAfterSweep EchoKeepsEphemeral
 CHECK_DEADLOCK FALSE
